@@ -53,6 +53,15 @@ HornerChain ==
     \A i \in 2..Len(calls) : (calls[i].op = "horner" /\ calls[i - 1].op = "horner") =>
         (handles[calls[i].args[1] + 1] = calls[i - 1].ret /\ calls[i].args[2] = calls[i - 1].args[2])
 
+\* long chains (up to MaxCalls steps): every step continues the previous one and reads leaves only (p_at_x the public input) -
+\* chains that span several packed rows for every packing factor, next to lanes the scheduler has to pad
+ArgIs(cl, k, kind) == graph[handles[cl.args[k] + 1]].k = kind
+IsLeafArg(cl, k) == graph[handles[cl.args[k] + 1]].k \in {"pub", "const"}
+LongHornerChain ==
+    /\ HornerChain
+    /\ \A i \in 1..Len(calls) : calls[i].op = "horner" => (IsLeafArg(calls[i], 3) /\ ArgIs(calls[i], 4, "pub"))
+    /\ Len(calls) >= 1 => (IsLeafArg(calls[1], 1) /\ IsLeafArg(calls[1], 2))
+
 \* products first, then additions: the shape in which the validity of one fusion depends on another one's
 MulsFirst == \A i \in 1..(Len(calls) - 1) : calls[i].op = "add" => calls[i + 1].op # "mul"
 
@@ -69,7 +78,6 @@ MulAddHornerShaped ==
 \* a private input that the kept operations read ONLY through a third operand (the addend of mul_add, p_at_z or the
 \* accumulator of a Horner step), next to two additions over public inputs that connects can make duplicates of each other
 \* and tie to that private input: the shape in which dedup may redirect a slot an earlier kept op still reads
-ArgIs(cl, k, kind) == graph[handles[cl.args[k] + 1]].k = kind
 PubNo(cl, k) == graph[handles[cl.args[k] + 1]].v      \* position of the public input an argument denotes
 RedirectShaped ==
     /\ Len(calls) >= 1 => (calls[1].op = "add" /\ ArgIs(calls[1], 1, "pub") /\ ArgIs(calls[1], 2, "pub") /\ PubNo(calls[1], 1) = 1 /\ PubNo(calls[1], 2) = 2)
